@@ -345,8 +345,8 @@ pub fn spec() -> PropSpec {
             Family { name: "upload", f: fam_upload, weight: 15 },
             Family { name: "early-hijack", f: fam_early_hijack, weight: 15 },
         ],
-        quick_worlds: 90_000,
-        thorough_worlds: 1_350_000,
+        quick_worlds: 200_000,
+        thorough_worlds: 2_700_000,
         panic_is_violation: true,
         rule: "each world = transfers in both directions while the client's address changes (port-only and full, up to six times, at drawn instants after the handshake), connection IDs rotate (300 ms lifetime in one family), challenges / responses / data are lost, duplicated and reordered, links are partitioned, and an attacker forwards in-flight genuine datagrams (delivered before the original) or replays delivered ones from third addresses towards the server or the client; server migration permitted in 3 of 4 worlds; non-trivial = a fault fired; distinct = distinct abstract-event signature",
         assumptions: vec![
